@@ -133,6 +133,15 @@ F-C12-1, F-C18-1).
   a marginal-ray solve the recorded `F2` operand was -7.5e-12 against 0 on the fresh lens — a difference of lengths
   of the size of the focal length, at rounding level.  The absolute tolerance of the row re-evaluation now scales
   with the largest operand magnitude of the row (1e-15 × scale).
+* C14 thorough (same cause): (i) `scale`/`inverse_scale` of a radius variable (`v/100 - 1` and back) near the scaled
+  value 0 differ from the identity by 6e-15 — the offset 1 costs an absolute 1e-14; the absolute tolerance of that
+  clause is now 1e-13.  (ii) Powell on an unbounded air space left a lens with vertex positions of 3.6e5 mm and
+  marginal slopes of 7e3; the solve predicate (shared with C01) demanded the requested height to 1e-7 mm and found
+  4e-7 (the library's own marginal ray gives the same number).  The tolerance now includes the conditioning term
+  64 eps (|u_in| max|z| + max|y|), negligible (1e-13) on ordinary lenses.
+* Two quick checks that happened to build the Lean project at the same moment as a third process reported
+  `theorems=0` (obligation broken): Lake has no build lock.  `core.lake_build` now takes an exclusive file lock
+  (`lean/.build.lock`), so checks may run side by side, also on a tree where nothing is built yet.
 * `hash(name)` seeded the rays of C06 (randomised per process): replaced by `zlib.crc32`.  C07 and C06 replays did not
   reproduce the recorded case (no work seed / configuration in the case): fixed, which the corpus builder exposed.
 
